@@ -267,8 +267,3 @@ def run(tier: str, seed: int) -> int:
         "NaNs in non-selected branches are invisible in forward values by construction",
     ]
     return rep.finish()
-
-
-def replay(rep_obj) -> int:
-    print(rep_obj.get("what"))
-    return 1
